@@ -212,6 +212,33 @@ def pre_a2_diagnosis(U, iso):
     return {"pre_a2_err": pre_err, "a2_loss": bool(pre_err < 1e-9)}
 
 
+def ucgate_diagnosis(circ, U, cols):
+    """for the known-finding predicate (csd): does every Qiskit UCGate ('multiplexer') instruction of the returned
+    circuit implement its own list of 2x2 gates, and is the circuit exact once the wrong ones are replaced by their
+    exact block-diagonal matrices?"""
+    from qiskit.circuit.library import UnitaryGate
+    try:
+        fixed = circ.copy_empty_like()
+        wrong = 0
+        for inst in circ.data:
+            op = inst.operation
+            if op.name == "multiplexer":
+                gates = [np.asarray(g, dtype=complex) for g in op.params]
+                ref = np.zeros((2 * len(gates), 2 * len(gates)), dtype=complex)
+                for i, g in enumerate(gates):
+                    ref[2 * i:2 * i + 2, 2 * i:2 * i + 2] = g
+                if float(np.abs(Operator(op).data - ref).max()) > TOL:
+                    wrong += 1
+                    fixed.append(UnitaryGate(ref), inst.qubits)
+                    continue
+            fixed.append(op, inst.qubits)
+        err = float(np.abs(Operator(fixed).data[:, :cols] - np.asarray(U)[:, :cols]).max())
+    except Exception:  # noqa: BLE001
+        return {"explained_by_qiskit_ucgate": False}
+    return {"qiskit_ucgates_wrong": wrong, "err_with_exact_multiplexers": err,
+            "explained_by_qiskit_ucgate": bool(wrong > 0 and err < TOL)}
+
+
 def eval_case(ctx, U, dec, a2, iso, fam):
     """C02 on the implementation for one input; True when it holds."""
     from qclib.unitary import unitary
@@ -239,6 +266,8 @@ def eval_case(ctx, U, dec, a2, iso, fam):
         case["err"] = err
         if dec == "qsd" and a2:
             case.update(pre_a2_diagnosis(U, iso))
+        if dec == "csd":
+            case.update(ucgate_diagnosis(circ, U, cols))
         ctx.violation(f"unitary(U, '{dec}', iso={iso}, apply_a2={a2}): operator differs from the matrix by {err:.3g} "
                       f"on the leading {cols} columns ({fam}, n={n})", case)
         return False
